@@ -1,4 +1,5 @@
 import Mkts.Lemmas.OnDiskAgg
+import Mkts.Model.OnDiskAggTie
 /-!
 # C24 On-disk aggregation matches the base data
 
@@ -9,12 +10,21 @@ buckets are `Store.Slots`, read with `Store.query`, written with `writeRecords`/
 * `aggregate_spec` (all series): on a time-sorted series `aggregate` produces exactly one bar per
   window with first open / `MaxFloat32` high / `MinFloat32` low / last close / exact total volume
   (`maxF_spec`: for numbers that high is an element and no element is greater).
-* `C24_full` - after every history the destination bucket equals the aggregate of the base bars
-  currently stored - is FALSE of the code: `C24_cex_stale` (correction of a cached bar keeps the
-  stale value), `C24_cex_window` (a write reaching back into an earlier window re-aggregates that
-  window from the written rows only), `C24_cex_unordered` (rows of one request not in time order).
-* `C24_partial`: the cache-miss / first-firing path - every destination is rewritten with the
-  property's aggregate of what the base bucket query returned for the touched windows.
+* `code_variant`: the three repaired statements of `Fire` (C24-F1 union operand order, C24-F2 cache
+  validity = written range inside the cached window, C24-F3 head/tail = earliest/latest record) are in
+  the current source (regenerated skeletons, `decide`); the model follows the source through
+  `codeVariant`.
+* `C24_call` (FULL per trigger call, any variant): every `WriteCSM` a call of `Fire` issues carries the
+  property's aggregate of the destination's windows of the series the call holds, and that series is
+  the base-bucket query result (cache miss) or the cached window united with the written rows (hit).
+* For the repaired source: `hit_new_wins` / `hit_keeps_cached` / `hit_only` (on a hit the written rows
+  replace cached rows of the same epoch, every other cached row is kept, nothing else appears),
+  `head_tail_cover` (head/tail bracket every written record), `valid_inside` (a hit only happens when
+  the written range lies inside the cached window).
+* `repaired_stale`, `repaired_window`, `repaired_unordered`: on the three former counterexample
+  histories the whole model (store + trigger + cache) now ends with destination = aggregate of the
+  stored base bars; `before_repair_*` record what the earlier source did on them.
+* Not proved: the history-level statement `C24_full` by induction over the Store model (see notes).
 -/
 namespace Mkts.Props.C24
 open Mkts.OnDiskAgg Mkts.Store Mkts.Timeframe Mkts.Time List
@@ -119,7 +129,7 @@ theorem aggregate_sound (cd : CandleDuration) (hcd : Intraday cd) (cs out : CS)
           rw [← h, hb, hbs, List.map_cons]
   exact key _ out (fun g hgm x hx => hv x (mem_specGroups _ cs g hgm x hx)) h
 
-/-! ## the cache-miss / first-firing path -/
+/-! ## one trigger call -/
 
 theorem slice_sublist (cs : CS) (a b : Int) : (sliceByEpoch cs a b).Sublist cs := by
   simp only [sliceByEpoch]
@@ -163,76 +173,318 @@ theorem writeLoop_spec (upDur : Int) (cs : CS) (head tail : Int)
               exact aggregate_sound w hin _ _ (hs.sublist hsub) (fun b hb => hv b (hsub.subset hb)) hagg
           · exact Or.inr h'
 
-/-- what a cache-miss call must have written to destination `d`: the property's aggregate of the rows
-    the base-bucket query returned for `[Truncate(head), Ceil(tail))` of the upper bound, restricted
-    to `d`'s windows around the written range -/
-def MissSpec (dests : List Dest) (q : Int → Int → Option CS) (year : Int) (recs : List Rec) (d : Str)
-    (out : CS) : Prop :=
-  ∃ w up window cs r0 rest, ∃ (_ : recs = r0 :: rest), upperBound dests = some up ∧
-    candleDurationFromString up.str = some window ∧ candleDurationFromString d = some w ∧
-    q (truncSec window (recTime year r0))
-      (ceilSec window (recTime year ((r0 :: rest).getLast (by simp))) - 1) = some cs ∧
-    (Intraday w → out = specAgg w (sliceByEpoch cs (truncSec w (recTime year r0))
-      (ceilSec w (recTime year ((r0 :: rest).getLast (by simp))) - 1)))
+/-! ### `ColumnSeriesUnion` -/
 
-theorem queryPath_spec (dests : List Dest) (q : Int → Int → Option CS) (year : Int) (r0 : Rec)
-    (rest : List Rec) (up : Dest) (window : CandleDuration) (hup : upperBound dests = some up)
-    (hwin : candleDurationFromString up.str = some window)
-    (hq : ∀ a b cs, q a b = some cs →
-      cs.Pairwise (fun x y => x.t ≤ y.t) ∧ ∀ x ∈ cs, 0 ≤ x.v ∧ x.v ≤ 2147483647)
-    (cache' : Option Cached) (d : Str) (out : CS)
-    (h : (d, out) ∈ (match q (truncSec window (recTime year r0))
-            (ceilSec window (recTime year ((r0 :: rest).getLast (by simp))) - 1) with
-          | none => (⟨[], cache'⟩ : WriteRes)
-          | some cs => writeLoop up.duration cs (recTime year r0)
-              (recTime year ((r0 :: rest).getLast (by simp))) dests ⟨[], cache'⟩).writes) :
-    MissSpec dests q year (r0 :: rest) d out := by
-  split at h
-  · simp at h
-  · rename_i cs hcs
-    have := hq _ _ cs hcs
-    rcases writeLoop_spec up.duration cs _ _ this.1 this.2 dests _ d out h with h' | ⟨w, hw, hspec⟩
-    · simp at h'
-    · exact ⟨w, up, window, cs, r0, rest, rfl, hup, hwin, hw, hcs, hspec⟩
-
-/-- **C24_partial** (cache miss: first firing for a bucket, or the written range does not overlap the
-    cached window): whatever `Fire` writes to a destination is the property's aggregate - first open,
-    highest high, lowest low, last close, total volume per window - of the rows the base-bucket query
-    returned, restricted to that destination's windows; nothing comes from the cache.  The excluded
-    class is exactly "cache hit" (`hmiss` false). -/
-theorem C24_partial (dests : List Dest) (q : Int → Int → Option CS) (cache : Option Cached) (year : Int)
-    (recs : List Rec)
-    (hmiss : ∀ c, cache = some c → ∀ r0 rest (_ : recs = r0 :: rest),
-      c.valid (recTime year ((r0 :: rest).getLast (by simp))) (recTime year r0) = false)
-    (hq : ∀ a b cs, q a b = some cs →
-      cs.Pairwise (fun x y => x.t ≤ y.t) ∧ ∀ x ∈ cs, 0 ≤ x.v ∧ x.v ≤ 2147483647)
-    (d : Str) (out : CS) (h : (d, out) ∈ (fire dests q cache year recs).writes) :
-    MissSpec dests q year recs d out := by
-  unfold fire at h
-  split at h
-  · simp at h
-  · simp at h
-  · rename_i r0 rest up hup
+theorem mem_putBar (b x : Bar) : ∀ (l : CS), x ∈ putBar b l → x = b ∨ x ∈ l := by
+  intro l
+  induction l with
+  | nil => intro h; simp [putBar] at h; exact Or.inl h
+  | cons y ys ih =>
+    intro h
+    simp only [putBar] at h
     split at h
-    · simp at h
-    · rename_i window hwin
-      dsimp only at h
+    · rcases List.mem_cons.mp h with h | h
+      · exact Or.inl h
+      · exact Or.inr h
+    · split at h
+      · rcases List.mem_cons.mp h with h | h
+        · exact Or.inl h
+        · exact Or.inr (List.mem_cons_of_mem _ h)
+      · rcases List.mem_cons.mp h with h | h
+        · exact Or.inr (by rw [h]; simp)
+        · rcases ih h with h | h
+          · exact Or.inl h
+          · exact Or.inr (List.mem_cons_of_mem _ h)
+
+theorem mem_putBar_self (b : Bar) : ∀ (l : CS), b ∈ putBar b l := by
+  intro l
+  induction l with
+  | nil => simp [putBar]
+  | cons y ys ih =>
+    simp only [putBar]
+    split
+    · simp
+    · split
+      · simp
+      · exact List.mem_cons_of_mem _ ih
+
+theorem putBar_keeps (b x : Bar) (hne : x.t ≠ b.t) : ∀ (l : CS), x ∈ l → x ∈ putBar b l := by
+  intro l
+  induction l with
+  | nil => intro h; simp at h
+  | cons y ys ih =>
+    intro h
+    simp only [putBar]
+    split
+    · exact List.mem_cons_of_mem _ h
+    · split
+      · rename_i heq
+        rcases List.mem_cons.mp h with h | h
+        · exact absurd (by rw [h]; exact heq.symm) hne
+        · exact List.mem_cons_of_mem _ h
+      · rcases List.mem_cons.mp h with h | h
+        · rw [h]; simp
+        · exact List.mem_cons_of_mem _ (ih h)
+
+theorem putBar_sorted (b : Bar) : ∀ (l : CS), l.Pairwise (fun x y => x.t < y.t) →
+    (putBar b l).Pairwise (fun x y => x.t < y.t) := by
+  intro l
+  induction l with
+  | nil => intro _; simp [putBar]
+  | cons y ys ih =>
+    intro hs
+    rw [List.pairwise_cons] at hs
+    simp only [putBar]
+    split
+    · rename_i hlt
+      refine List.pairwise_cons.mpr ⟨?_, List.pairwise_cons.mpr hs⟩
+      intro z hz
+      rcases List.mem_cons.mp hz with rfl | hz
+      · exact hlt
+      · have := hs.1 z hz; omega
+    · split
+      · rename_i heq
+        refine List.pairwise_cons.mpr ⟨?_, hs.2⟩
+        intro z hz
+        have := hs.1 z hz; omega
+      · rename_i hnlt hne
+        refine List.pairwise_cons.mpr ⟨?_, ih hs.2⟩
+        intro z hz
+        rcases mem_putBar b z ys hz with rfl | hz
+        · omega
+        · exact hs.1 z hz
+
+theorem foldl_put_sorted (l : CS) : ∀ (acc : CS), acc.Pairwise (fun x y => x.t < y.t) →
+    (l.foldl (fun a b => putBar b a) acc).Pairwise (fun x y => x.t < y.t) := by
+  induction l with
+  | nil => intro acc h; exact h
+  | cons b l ih => intro acc h; exact ih _ (putBar_sorted b acc h)
+
+theorem foldl_put_mem (l : CS) : ∀ (acc : CS) (x : Bar), x ∈ l.foldl (fun a b => putBar b a) acc →
+    x ∈ acc ∨ x ∈ l := by
+  induction l with
+  | nil => intro acc x h; exact Or.inl h
+  | cons b l ih =>
+    intro acc x h
+    rcases ih _ x h with h | h
+    · rcases mem_putBar b x acc h with rfl | h
+      · exact Or.inr (by simp)
+      · exact Or.inl h
+    · exact Or.inr (List.mem_cons_of_mem _ h)
+
+theorem foldl_put_keeps (l : CS) : ∀ (acc : CS) (x : Bar), x ∈ acc → (∀ y ∈ l, x.t ≠ y.t) →
+    x ∈ l.foldl (fun a b => putBar b a) acc := by
+  induction l with
+  | nil => intro acc x h _; exact h
+  | cons b l ih =>
+    intro acc x h hne
+    exact ih _ x (putBar_keeps b x (hne b (by simp)) acc h) (fun y hy => hne y (List.mem_cons_of_mem _ hy))
+
+/-- the union is always in strictly ascending time order -/
+theorem union_sorted (l r : CS) : (union l r).Pairwise (fun x y => x.t < y.t) :=
+  foldl_put_sorted _ [] List.Pairwise.nil
+
+/-- nothing but rows of the operands -/
+theorem union_mem (l r : CS) (x : Bar) (h : x ∈ union l r) : x ∈ l ∨ x ∈ r := by
+  rcases foldl_put_mem _ [] x h with h | h
+  · simp at h
+  · exact List.mem_append.mp h
+
+/-- a row of the RIGHT operand whose epoch occurs once there is in the union: the right operand wins -/
+theorem union_right_wins (l r : CS) (hr : r.Pairwise (fun x y => x.t ≠ y.t)) (x : Bar) (hx : x ∈ r) :
+    x ∈ union l r := by
+  obtain ⟨r1, r2, rfl⟩ := List.append_of_mem hx
+  simp only [union, ← List.append_assoc, List.foldl_append, List.foldl_cons]
+  apply foldl_put_keeps
+  · exact mem_putBar_self _ _
+  · intro y hy
+    have := List.pairwise_append.mp hr
+    exact (List.pairwise_cons.mp this.2.1).1 y hy
+
+/-- a row of the LEFT operand (epochs distinct there) whose epoch does not occur on the right is kept -/
+theorem union_left_kept (l r : CS) (hl : l.Pairwise (fun x y => x.t ≠ y.t)) (x : Bar) (hx : x ∈ l)
+    (hne : ∀ y ∈ r, x.t ≠ y.t) : x ∈ union l r := by
+  simp only [union, List.foldl_append]
+  apply foldl_put_keeps _ _ _ _ hne
+  obtain ⟨l1, l2, rfl⟩ := List.append_of_mem hx
+  simp only [List.foldl_append, List.foldl_cons]
+  apply foldl_put_keeps
+  · exact mem_putBar_self _ _
+  · intro y hy
+    have := List.pairwise_append.mp hl
+    exact (List.pairwise_cons.mp this.2.1).1 y hy
+
+/-! ### `Fire` -/
+
+/-- the series a call of `Fire` aggregates: on a hit the cache united with the written rows, on a miss
+    the base-bucket query over the upper-bound windows of `[head, tail]` -/
+def CallSeries (v : Variant) (dests : List Dest) (q : Int → Int → Option CS) (cache : Option Cached)
+    (year : Int) (r0 : Rec) (rest : List Rec) (S : CS) : Prop :=
+  ∃ up window, upperBound dests = some up ∧ candleDurationFromString up.str = some window ∧
+    ((∃ c, cache = some c ∧ c.valid v (tailTime v year r0 rest) (headTime v year r0 rest) = true ∧
+        S = hitSeries v c (recordsToCS year (r0 :: rest))) ∨
+     ((∀ c, cache = some c → c.valid v (tailTime v year r0 rest) (headTime v year r0 rest) = false) ∧
+        q (truncSec window (headTime v year r0 rest)) (ceilSec window (tailTime v year r0 rest) - 1) = some S))
+
+/-- **C24_call** (every variant of the source, every configuration, cache state and written records):
+    whatever a call of `Fire` writes to a destination is the property's aggregate - first open, highest
+    high, lowest low, last close, total volume per window - of the series the call holds (`CallSeries`),
+    restricted to that destination's windows around `[head, tail]`. -/
+theorem C24_call (v : Variant) (dests : List Dest) (q : Int → Int → Option CS) (cache : Option Cached)
+    (year : Int) (r0 : Rec) (rest : List Rec)
+    (hq : ∀ a b cs, q a b = some cs →
+      cs.Pairwise (fun x y => x.t ≤ y.t) ∧ ∀ x ∈ cs, 0 ≤ x.v ∧ x.v ≤ 2147483647)
+    (hc : ∀ c, cache = some c → ∀ x ∈ c.cs, 0 ≤ x.v ∧ x.v ≤ 2147483647)
+    (hn : ∀ x ∈ recordsToCS year (r0 :: rest), 0 ≤ x.v ∧ x.v ≤ 2147483647)
+    (d : Str) (out : CS) (h : (d, out) ∈ (fire v dests q cache year (r0 :: rest)).writes) :
+    ∃ S w, CallSeries v dests q cache year r0 rest S ∧ candleDurationFromString d = some w ∧
+      (Intraday w → out = specAgg w (sliceByEpoch S (truncSec w (headTime v year r0 rest))
+        (ceilSec w (tailTime v year r0 rest) - 1))) := by
+  unfold fire at h
+  cases hup : upperBound dests with
+  | none => simp [hup] at h
+  | some up =>
+    simp only [hup] at h
+    cases hwin : candleDurationFromString up.str with
+    | none => simp [hwin] at h
+    | some window =>
+      simp only [hwin] at h
+      have miss : ∀ cache', (∀ c, cache = some c →
+            c.valid v (tailTime v year r0 rest) (headTime v year r0 rest) = false) →
+          (d, out) ∈ (match q (truncSec window (headTime v year r0 rest))
+              (ceilSec window (tailTime v year r0 rest) - 1) with
+            | none => (⟨[], cache'⟩ : WriteRes)
+            | some cs => writeLoop up.duration cs (headTime v year r0 rest) (tailTime v year r0 rest)
+                dests ⟨[], cache'⟩).writes →
+          ∃ S w, CallSeries v dests q cache year r0 rest S ∧ candleDurationFromString d = some w ∧
+            (Intraday w → out = specAgg w (sliceByEpoch S (truncSec w (headTime v year r0 rest))
+              (ceilSec w (tailTime v year r0 rest) - 1))) := by
+        intro cache' hmiss h
+        split at h
+        · simp at h
+        · rename_i cs hcs
+          have hqq := hq _ _ cs hcs
+          rcases writeLoop_spec up.duration cs _ _ hqq.1 hqq.2 dests _ d out h with h' | ⟨w, hw, hspec⟩
+          · simp at h'
+          · exact ⟨cs, w, ⟨up, window, hup, hwin, Or.inr ⟨hmiss, hcs⟩⟩, hw, hspec⟩
       split at h
       · rename_i c
-        have hv := hmiss c rfl r0 rest rfl
-        simp only [hv, Bool.false_eq_true, if_false] at h
-        exact queryPath_spec dests q year r0 rest up window hup hwin hq _ d out h
-      · exact queryPath_spec dests q year r0 rest up window hup hwin hq _ d out h
+        by_cases hv : c.valid v (tailTime v year r0 rest) (headTime v year r0 rest) = true
+        · simp only [hv, if_true] at h
+          have hsorted : (hitSeries v c (recordsToCS year (r0 :: rest))).Pairwise (fun x y => x.t ≤ y.t) := by
+            unfold hitSeries
+            split <;> exact (union_sorted _ _).imp (fun {a b} hab => Int.le_of_lt hab)
+          have hvol : ∀ x ∈ hitSeries v c (recordsToCS year (r0 :: rest)), 0 ≤ x.v ∧ x.v ≤ 2147483647 := by
+            intro x hx
+            unfold hitSeries at hx
+            split at hx
+            · rcases union_mem _ _ x hx with h1 | h1
+              · exact hc c rfl x h1
+              · exact hn x h1
+            · rcases union_mem _ _ x hx with h1 | h1
+              · exact hn x h1
+              · exact hc c rfl x h1
+          rcases writeLoop_spec up.duration _ _ _ hsorted hvol dests _ d out h with h' | ⟨w, hw, hspec⟩
+          · simp at h'
+          · exact ⟨_, w, ⟨up, window, hup, hwin, Or.inl ⟨c, rfl, hv, rfl⟩⟩, hw, hspec⟩
+        · have hv' : c.valid v (tailTime v year r0 rest) (headTime v year r0 rest) = false := by
+            simpa using hv
+          simp only [hv', Bool.false_eq_true, if_false] at h
+          exact miss _ (fun c' hc' => by cases hc'; exact hv') h
+      · exact miss _ (fun c' hc' => by cases hc') h
 
-/-! ## the full statement and its counterexamples -/
+/-! ### the repaired statements -/
+
+/-- the current source has all three repairs (skeletons of `OnDiskAggTrigger.Fire` and `cachedAgg.Valid`
+    regenerated from the repository; reverting one makes this `decide` fail and the model follow) -/
+theorem code_variant : codeVariant = Variant.fixed := by decide
+
+/-- C24-F1 repaired: on a hit every written row is in the aggregated series (it replaces a cached row of
+    the same epoch); written rows have distinct epochs because they are distinct slots of one file -/
+theorem hit_new_wins (c : Cached) (new : CS) (hnew : new.Pairwise (fun x y => x.t ≠ y.t)) (x : Bar)
+    (hx : x ∈ new) : x ∈ hitSeries Variant.fixed c new :=
+  union_right_wins c.cs new hnew x hx
+
+/-- cached rows whose epoch was not written stay -/
+theorem hit_keeps_cached (c : Cached) (new : CS) (hc : c.cs.Pairwise (fun x y => x.t ≠ y.t)) (x : Bar)
+    (hx : x ∈ c.cs) (hne : ∀ y ∈ new, x.t ≠ y.t) : x ∈ hitSeries Variant.fixed c new :=
+  union_left_kept c.cs new hc x hx hne
+
+/-- and nothing else is in it, one row per epoch in time order -/
+theorem hit_only (c : Cached) (new : CS) :
+    (hitSeries Variant.fixed c new).Pairwise (fun x y => x.t < y.t) ∧
+    ∀ x ∈ hitSeries Variant.fixed c new, x ∈ c.cs ∨ x ∈ new :=
+  ⟨union_sorted _ _, fun x hx => union_mem _ _ x hx⟩
+
+/-- C24-F2 repaired: a hit happens only when the written range lies inside the cached window -/
+theorem valid_inside (c : Cached) (tail head : Int) :
+    c.valid Variant.fixed tail head = true ↔ c.tail ≤ head ∧ tail ≤ c.head := by
+  simp [Cached.valid, Variant.fixed]
+
+theorem idxTime_mono (year : Int) {i j : Int} (h : i ≤ j) : idxTime year i ≤ idxTime year j := by
+  have hne : (minuteNs == dayNs) = false := by decide
+  simp only [idxTime, indexToTime, hne, Bool.false_eq_true, if_false]
+  apply Int.ediv_le_ediv (by decide)
+  have : minuteNs * (i - 1) ≤ minuteNs * (j - 1) :=
+    Int.mul_le_mul_of_nonneg_left (by omega) (by decide)
+  omega
+
+theorem foldl_min_le (l : List Rec) : ∀ (m : Int),
+    l.foldl (fun m r => if r.index < m then r.index else m) m ≤ m ∧
+    ∀ r ∈ l, l.foldl (fun m r => if r.index < m then r.index else m) m ≤ r.index := by
+  induction l with
+  | nil => intro m; simp
+  | cons a l ih =>
+    intro m
+    simp only [List.foldl_cons]
+    have h := ih (if a.index < m then a.index else m)
+    refine ⟨?_, ?_⟩
+    · have := h.1; split at this <;> omega
+    · intro r hr
+      rcases List.mem_cons.mp hr with rfl | hr
+      · have := h.1; split at this <;> omega
+      · exact h.2 r hr
+
+theorem foldl_max_ge (l : List Rec) : ∀ (m : Int),
+    m ≤ l.foldl (fun m r => if r.index > m then r.index else m) m ∧
+    ∀ r ∈ l, r.index ≤ l.foldl (fun m r => if r.index > m then r.index else m) m := by
+  induction l with
+  | nil => intro m; simp
+  | cons a l ih =>
+    intro m
+    simp only [List.foldl_cons]
+    have h := ih (if a.index > m then a.index else m)
+    refine ⟨?_, ?_⟩
+    · have := h.1; split at this <;> omega
+    · intro r hr
+      rcases List.mem_cons.mp hr with rfl | hr
+      · have := h.1; split at this <;> omega
+      · exact h.2 r hr
+
+/-- C24-F3 repaired: `head` and `tail` bracket the time of every written record, in whatever order the
+    request listed them -/
+theorem head_tail_cover (year : Int) (r0 : Rec) (rest : List Rec) (r : Rec) (hr : r ∈ r0 :: rest) :
+    headTime Variant.fixed year r0 rest ≤ recTime year r ∧
+    recTime year r ≤ tailTime Variant.fixed year r0 rest := by
+  simp only [headTime, tailTime, Variant.fixed, if_true, recTime]
+  have hmin := foldl_min_le rest r0.index
+  have hmax := foldl_max_ge rest r0.index
+  rcases List.mem_cons.mp hr with rfl | hr
+  · exact ⟨idxTime_mono year hmin.1, idxTime_mono year hmax.1⟩
+  · exact ⟨idxTime_mono year (hmin.2 r hr), idxTime_mono year (hmax.2 r hr)⟩
+
+/-! ## whole histories -/
 
 /-- after every history of base-bar writes in the property's domain, each destination bucket holds
-    exactly the aggregate of the base bars currently stored -/
+    exactly the aggregate of the base bars currently stored.  NOT PROVED at this level (it needs an
+    induction over the Store model: query = stored bars of the range, destination writes touch exactly
+    the re-aggregated windows); it is what the spec line of the correspondence run demands of the
+    implementation after every write, with no excluded class left. -/
 def C24_full : Prop :=
   ∀ (names : List Str) (dests : List Dest) (hist : List (List Row)),
     newTrigger names = some dests → histInDomain dests hist = true →
     ∀ d ∈ dests, ∀ cd, candleDurationFromString d.str = some cd →
-      destBars (runHist dests hist) d = specAgg cd (baseBars (runHist dests hist))
+      destBars (runHist Variant.fixed dests hist) d = specAgg cd (baseBars (runHist Variant.fixed dests hist))
 
 def fiveMin : Str := ['5','M','i','n']
 def dests5 : List Dest := [⟨fiveMin, 300000000000⟩]
@@ -266,47 +518,48 @@ def histUnordered : List (List Row) :=
 theorem cd5_ok : candleDurationFromString fiveMin = some cd5 := by decide
 theorem dests5_ok : newTrigger [fiveMin] = some dests5 := by decide
 
-/-- F21a: the corrected bar is already in the cache, `ColumnSeriesUnion(new, cached)` keeps the cached
-    row: the 5Min bar stays high 4 / volume 300 although the base data says high 99 / volume 700 -/
-theorem C24_cex_stale :
+/-- C24-F1 repaired: the correction of the cached 10:01 bar reaches the 5Min bar -/
+theorem repaired_stale :
     histInDomain dests5 histStale = true ∧
-    destBars (runHist dests5 histStale) ⟨fiveMin, 300000000000⟩ = [⟨t0, p2, p4, p1, p3, 300⟩] ∧
-    specAgg cd5 (baseBars (runHist dests5 histStale)) = [⟨t0, p2, p99, p1, p3, 700⟩] := by
+    destBars (runHist Variant.fixed dests5 histStale) ⟨fiveMin, 300000000000⟩ = [⟨t0, p2, p99, p1, p3, 700⟩] ∧
+    specAgg cd5 (baseBars (runHist Variant.fixed dests5 histStale)) = [⟨t0, p2, p99, p1, p3, 700⟩] := by
   decide
 
-/-- F21b: the write `[10:03, 10:06]` overlaps the cached 10:05 window, so nothing is read from disk and
-    the 10:00 window is re-aggregated from the single written row 10:03 -/
-theorem C24_cex_window :
+/-- C24-F2 repaired: the write `[10:03, 10:06]` is not inside the cached 10:05 window, the base bucket is
+    queried and the 10:00 window is aggregated from all its stored bars -/
+theorem repaired_window :
     histInDomain dests5 histWindow = true ∧
-    destBars (runHist dests5 histWindow) ⟨fiveMin, 300000000000⟩
-      = [⟨t0, p3, p4, p3, p3, 100⟩, ⟨t0 + 300, p1, p2, p1, p1, 17⟩] ∧
-    specAgg cd5 (baseBars (runHist dests5 histWindow))
+    destBars (runHist Variant.fixed dests5 histWindow) ⟨fiveMin, 300000000000⟩
+      = [⟨t0, p2, p4, p1, p3, 300⟩, ⟨t0 + 300, p1, p2, p1, p1, 17⟩] ∧
+    specAgg cd5 (baseBars (runHist Variant.fixed dests5 histWindow))
       = [⟨t0, p2, p4, p1, p3, 300⟩, ⟨t0 + 300, p1, p2, p1, p1, 17⟩] := by
   decide
 
-/-- rows not in time order: `head` (first record) lies after `tail` (last record), the query range is
-    empty and no aggregate is written at all -/
-theorem C24_cex_unordered :
+/-- C24-F3 repaired: rows listed 10:07 before 10:01 - both windows are aggregated -/
+theorem repaired_unordered :
     histInDomain dests5 histUnordered = true ∧
-    destBars (runHist dests5 histUnordered) ⟨fiveMin, 300000000000⟩ = [] ∧
-    specAgg cd5 (baseBars (runHist dests5 histUnordered))
+    destBars (runHist Variant.fixed dests5 histUnordered) ⟨fiveMin, 300000000000⟩
+      = [⟨t0, p2, p3, p1, p2, 100⟩, ⟨t0 + 300, p1, p2, p1, p1, 10⟩] ∧
+    specAgg cd5 (baseBars (runHist Variant.fixed dests5 histUnordered))
       = [⟨t0, p2, p3, p1, p2, 100⟩, ⟨t0 + 300, p1, p2, p1, p1, 10⟩] := by
   decide
 
-theorem C24_not_full : ¬ C24_full := by
-  intro h
-  have h1 := h [fiveMin] dests5 histStale dests5_ok C24_cex_stale.1 ⟨fiveMin, 300000000000⟩ (by simp [dests5])
-    cd5 cd5_ok
-  rw [C24_cex_stale.2.1, C24_cex_stale.2.2] at h1
-  exact absurd h1 (by decide)
+/-- BEFORE THE REPAIRS (`Variant.old`): the stale 5Min bar (high 4 / volume 300 instead of 99 / 700),
+    the 10:00 window aggregated from the single written row, no aggregate at all for unordered rows -/
+theorem before_repair :
+    destBars (runHist Variant.old dests5 histStale) ⟨fiveMin, 300000000000⟩ = [⟨t0, p2, p4, p1, p3, 300⟩] ∧
+    destBars (runHist Variant.old dests5 histWindow) ⟨fiveMin, 300000000000⟩
+      = [⟨t0, p3, p4, p3, p3, 100⟩, ⟨t0 + 300, p1, p2, p1, p1, 17⟩] ∧
+    destBars (runHist Variant.old dests5 histUnordered) ⟨fiveMin, 300000000000⟩ = [] := by
+  decide
 
 /-! ## non-vacuity -/
 
-/-- a first firing (cache miss) on fresh data: the destination equals the spec -/
-example : destBars (runHist dests5 [histStale.headD []]) ⟨fiveMin, 300000000000⟩
-    = specAgg cd5 (baseBars (runHist dests5 [histStale.headD []])) := by decide
 example : Intraday cd5 := Or.inr (Or.inl rfl)
 example : aggregate cd5 [⟨t0, p2, p3, p1, p2, 100⟩, ⟨t0 + 60, p2, p99, p1, p2, 500⟩, ⟨t0 + 300, p1, p1, p1, p1, 7⟩]
     = some [⟨t0, p2, p99, p1, p2, 600⟩, ⟨t0 + 300, p1, p1, p1, p1, 7⟩] := by decide
+/-- a hit of the repaired source: cached `[10:00, 10:01]`, written correction of 10:01 -/
+example : hitSeries Variant.fixed ⟨[⟨t0, p2, p3, p1, p2, 100⟩, ⟨t0 + 60, p2, p3, p1, p2, 100⟩], t0, t0 + 299⟩
+    [⟨t0 + 60, p2, p99, p1, p2, 500⟩] = [⟨t0, p2, p3, p1, p2, 100⟩, ⟨t0 + 60, p2, p99, p1, p2, 500⟩] := by decide
 
 end Mkts.Props.C24
